@@ -56,6 +56,7 @@ Definition apply_body (e:evalr) (sp:span) (argv:list value) : Comp value :=
       | [VInt i], VBytes s => match py_nth s i with Some c => Ret (VBytes [c]) | None => raise c_range sp end
       | [VInt i], VComplex re im => if i =? 0 then Ret (VFloat re) else if i =? 1 then Ret (VFloat im) else raise c_value sp
       | _, _ => raise c_type sp end
+  | EFun (FFile hd) => file_call hd sp argv
   | EFun (FClo f) =>
       AllocBody f argv (fun t => Ret (VThunk t))
   | EFun (FModule name) => module_body name sp argv
@@ -95,6 +96,7 @@ Definition format_body (v:value) (flag:bool) : Comp value :=
   | VBytes s => Ret (VStr ([98%N; 39%N] ++ flat_map (fun b => [92%N; 120%N; hexd (N.div b 16); hexd (N.modulo b 16)]) s ++ [39%N]))
   | VNil => Ret (VStr s_nil)
   | VFun (FClo f) => CloDepth f (fun d => Ret (VStr (s_clo_a ++ str_of_int (Z.of_nat d) ++ s_clo_b)))
+  | VFun (FFile _) => Ret (VStr [60; 54028; 51068; 32; 51217; 44540; 32; 32; 54632; 49688; 62]%N)
   | VFun (FModule name) => Ret (VStr (s_module name))
   | VFun (FCodec _ _ _ _) => Ret (VStr s_codec)
   | VFun (FPipe _ _) => Ret (VStr s_pipe) | VFun (FCollect _ _) => Ret (VStr s_collect) | VFun (FSpread _ _) => Ret (VStr s_spread)
@@ -134,6 +136,8 @@ Definition doio_body (v:value) : Comp value :=
            | IOInput => World WRead Ret
            | IOPrint s => World (WPrint s) Ret
            | IOReturn w => Ret w
+           | IOOpen sp p m => World (WOpen sp p m) Ret
+           | IOFile sp hd o => World (WFile sp hd o) Ret
            | IOBind sp m f h _ =>
                Catch (x <- call (PDoIO m) ;; Ret (VList [x]))
                      (fun e => match h with
